@@ -288,11 +288,14 @@ def r_iso( ctx ):
     src = ctx.src( 'server/enip/main.py' )
     for qn in ( 'enip_srv_tcp', 'enip_srv_udp' ):
         fn = src.get( qn )
+        from .rules_paths import server_roles
+        roles = server_roles( fn )
+        SOURCE = roles.get( 'source' )
         gl = [ s for s in ast.walk( fn ) if isinstance( s, ( ast.Global, ast.Nonlocal )) ]
         for g_ in gl:
-            if set( g_.names ) & { 'source', 'data', 'machine', 'engine' }:
+            if set( g_.names ) & { roles.get( k ) for k in ( 'source', 'data', 'machine', 'engine' ) }:
                 res.bad( src, g_, g_, 'per-connection parse state must be local to the handler' )
-        srcs = pfind( fn, 'source = rememberable()' )
+        srcs = pfind( fn, '%s = rememberable()' % SOURCE ) if SOURCE else []
         if srcs:
             res.ok( src, srcs[0][0], '%s: source = rememberable() created per connection/iteration' % qn )
             if qn == 'enip_srv_tcp':
@@ -301,7 +304,7 @@ def r_iso( ctx ):
                 inside = [ a for a, m in srcs if loops and any( a is x for x in ast.walk( loops[0] )) ]
                 if inside:
                     res.bad( src, inside[0], 'source = rememberable() inside the TCP receive loop', 'bytes of following frames that arrived in the same chunk are discarded: pipelined / coalesced requests are lost and the stream desynchronises' )
-                elif loops and pfind( loops[0], 'source.forget()' ):
+                elif loops and pfind( loops[0], '%s.forget()' % SOURCE ):
                     res.ok( src, srcs[0][0], 'enip_srv_tcp: one source per connection, only its memory is reset per frame' )
             if qn == 'enip_srv_udp':
                 # one socket serves all UDP peers: the parse buffer must be fresh per datagram, i.e. created inside the receive loop
@@ -313,7 +316,7 @@ def r_iso( ctx ):
                     res.bad( src, srcs[0][0], 'source = rememberable() outside the UDP receive loop', 'bytes left over from one peer\'s datagram are prepended to the next peer\'s request' )
         else:
             res.bad( src, fn, '%s source' % qn, 'each connection needs its own input source' )
-        mach = [ w for w in ast.walk( fn ) if isinstance( w, ast.With ) and any( is_call_to( it.context_expr, 'parser.enip_machine' ) and dotted( it.optional_vars ) == 'machine' for it in w.items ) ]
+        mach = [ w for w in ast.walk( fn ) if isinstance( w, ast.With ) and any( is_call_to( it.context_expr, 'parser.enip_machine' ) and roles.get( 'machine' ) and dotted( it.optional_vars ) == roles['machine'] for it in w.items ) ]
         if mach:
             res.ok( src, mach[0], '%s: its own enip_machine instance, held for the connection' % qn )
         else:
